@@ -161,4 +161,33 @@ theorem replay_append {σ : Type} (m : Machine σ) : ∀ (evs₁ evs₂ : List E
       simp only [Option.bind_some] at h ⊢
       exact replay_append m r evs₂ s₁ s' h
 
+/-- The reorderings `Admissible` allows are limited: an event whose hook sits AFTER its action and
+    that is logged before an event whose hook sits BEFORE its action (e.g. "worker received batch b"
+    logged before "reader is about to send batch c") keeps that order in every admissible schedule. -/
+theorem admissible_after_before {tr : Array Ev} {sched : List Nat} (h : Admissible tr sched)
+    {i j : Nat} (hij : i < j) (hia : beforeAt tr i = false) (hjb : beforeAt tr j = true)
+    {p q : Nat} (hp : p < sched.length) (hq : q < sched.length) (hpi : sched[p] = i) (hqj : sched[q] = j) :
+    p < q := by
+  obtain ⟨ts, hlen, hpw, hb⟩ := h.timed
+  have hp' : p < ts.length := by omega
+  have hq' : q < ts.length := by omega
+  have hbp := hb (sched[p], ts[p]) (by
+    rw [List.mem_iff_getElem]
+    exact ⟨p, by simp [List.length_zip]; omega, by simp⟩)
+  have hbq := hb (sched[q], ts[q]) (by
+    rw [List.mem_iff_getElem]
+    exact ⟨q, by simp [List.length_zip]; omega, by simp⟩)
+  simp only [hpi, hqj] at hbp hbq
+  have hhi : hi tr i = i := by simp [hi, hia]
+  have hlo : lo tr j = j := by simp [lo, hjb]
+  rw [hhi] at hbp
+  rw [hlo] at hbq
+  rcases Nat.lt_trichotomy p q with hlt | heq | hgt
+  · exact hlt
+  · subst heq
+    rw [hpi] at hqj
+    omega
+  · have := (List.pairwise_iff_getElem.mp hpw) q p hq' hp' hgt
+    omega
+
 end Rare.TraceOrder
